@@ -30,7 +30,8 @@ def site (name : String) (params : List String) (entries : List (List String)) (
   let nd := nodupKeys es
   let tags := ["site:" ++ name] ++ (keysOfCase name).map ("key:" ++ ·) ++ tagIf (entries.length ≥ 8) "nontrivial" ++ tagIf nd "nodupkeys" ++
     tagIf (es.map (·.1) != sortS (es.map (·.1))) "unsorted-iteration"
-  if impl.headD "" == "PANIC" then ⟨.tie, tags, "the site case panicked: " ++ " ".intercalate impl⟩ else
+  -- a panic of the library on a generated input is a violation by itself (never a mere tie)
+  if impl.headD "" == "PANIC" then ⟨.oracle, tags, "the library call of the site case panicked: " ++ " ".intercalate impl⟩ else
   match name with
   | "tipbag" =>
     judge tags impl ((specSortedLines (fun _ v => some v) es)) ((tipBagTips es).map (·.getD "?")) "TipBag.Tips"
@@ -182,9 +183,9 @@ def handle (op : String) (f : List String) : Verdict :=
       let differing := res.filter (·.endsWith "=differs")
       let tags := ["seeduse", "random-templates:" ++ toString res.length, "seed-sensitive:" ++ toString differing.length] ++
         tagIf (differing.length ≥ 5) "nontrivial"
-      -- the tie "the random source is seeded from --seed": at least half of the random templates must react to the seed
-      if 2 * differing.length < res.length then
-        ⟨.tie, tags, "most random templates give the same output for two different seeds (--seed not used?): " ++ " ".intercalate res⟩
+      -- the tie "the random source is seeded from --seed": every random template must react to the seed
+      if differing.length < res.length then
+        ⟨.tie, tags, "a random template gives the same output for two different seeds (--seed not used?): " ++ " ".intercalate res⟩
       else ⟨.pass, tags, ""⟩
     | none => bad "C18.seeduse field"
   | "commands", [liveS, pairsS] =>
@@ -193,12 +194,18 @@ def handle (op : String) (f : List String) : Verdict :=
       let exercised := pairs.map (fun p => ((p.splitOn "=").drop 1).headD "?")
       let missing := templateCommands.filter (fun c => !(exercised.contains c))
       let unlisted := exercised.eraseDups.filter (fun c => !(templateCommands.contains c))
+      -- "several threads": every row of Spec.threadCommands has its template, on its command, with -t ≥ 2
+      let noThreads := threadCommands.filter (fun r => !(pairs.any (fun p => match p.splitOn "=" with
+        | [tpl, path, th] => tpl == r.2.2 && path == r.2.1 && (th.toNat?.getD 1) ≥ 2
+        | _ => false)))
       let tags := ["commands", "live:" ++ toString live.length, "templates:" ++ toString pairs.length,
         "commands-with-template:" ++ toString exercised.eraseDups.length] ++ tagIf (live.length ≥ 60) "nontrivial"
       if live != Gen.C18Sites.commands then
         ⟨.tie, tags, "the live command tree differs from the regenerated table Gen.C18Sites.commands"⟩
       else if !missing.isEmpty then
         ⟨.tie, tags, "commands claimed by Spec.templateCommands for which the harness has no run template: " ++ ", ".intercalate missing⟩
+      else if !noThreads.isEmpty then
+        ⟨.tie, tags, "thread-using commands without a run template with -t ≥ 2: " ++ ", ".intercalate (noThreads.map (fun r => r.2.1 ++ " (" ++ r.2.2 ++ ")"))⟩
       else if !unlisted.isEmpty then
         ⟨.tie, tags, "templates whose command is not listed in Spec.templateCommands: " ++ ", ".intercalate unlisted⟩
       else ⟨.pass, tags, ""⟩
